@@ -54,10 +54,11 @@ structure RngWF (F : List Rng) : Prop where
 def IsOpen (F : List Rng) (t : Nat) (R : Rng) : Prop :=
   R ∈ F ∧ srank R ≤ t ∧ (R.hi = TOP ∨ t < erank R)
 
-/-- the events still to come are exactly the events of `F` after cut `t`, strictly sorted -/
-structure Cut (F : List Rng) (t : Nat) (rest : List GEv) : Prop where
+/-- the events still to come are exactly the events of `F` after cut `t` — and possibly marker events
+`M` (pseudo start points that belong to no range of `F`) —, strictly sorted -/
+structure Cut (F : List Rng) (M : List GEv) (t : Nat) (rest : List GEv) : Prop where
   sorted : rest.Pairwise fun g g' => grank g < grank g'
-  sound : ∀ g ∈ rest, t < grank g ∧ g.r ∈ F ∧ (g.kind = .stop → g.r.hi ≠ TOP)
+  sound : ∀ g ∈ rest, t < grank g ∧ ((g.r ∈ F ∧ (g.kind = .stop → g.r.hi ≠ TOP)) ∨ g ∈ M)
   starts : ∀ R ∈ F, t < srank R → ⟨R, .start⟩ ∈ rest
   stops : ∀ R ∈ F, R.hi ≠ TOP → t < erank R → ⟨R, .stop⟩ ∈ rest
 
@@ -107,8 +108,9 @@ theorem head_inner {F : List Rng} (hF : RngWF F) {t : Nat} {H : Rng} {st : List 
   · rcases hXe with h' | h' <;> omega
 
 /-- the event of a cut with the smallest rank is the head of the list; nothing lies in between -/
-theorem Cut.tail {F : List Rng} {t : Nat} {g : GEv} {rest : List GEv} (hc : Cut F t (g :: rest)) :
-    Cut F (grank g) rest := by
+theorem Cut.tail {F : List Rng} {M : List GEv} {t : Nat} {g : GEv} {rest : List GEv}
+    (hc : Cut F M t (g :: rest)) :
+    Cut F M (grank g) rest := by
   have hlt : ∀ g' ∈ rest, grank g < grank g' := (List.pairwise_cons.1 hc.sorted).1
   refine ⟨(List.pairwise_cons.1 hc.sorted).2, ?_, ?_, ?_⟩
   · intro g' hg'
@@ -125,14 +127,16 @@ theorem Cut.tail {F : List Rng} {t : Nat} {g : GEv} {rest : List GEv} (hc : Cut 
     · exact h
 
 /-- an event of `F` after cut `t` is not before the first remaining event -/
-theorem Cut.start_ge {F : List Rng} {t : Nat} {g : GEv} {rest : List GEv} (hc : Cut F t (g :: rest))
+theorem Cut.start_ge {F : List Rng} {M : List GEv} {t : Nat} {g : GEv} {rest : List GEv}
+    (hc : Cut F M t (g :: rest))
     {R : Rng} (hR : R ∈ F) (ht : t < srank R) : grank g ≤ srank R := by
   rcases List.mem_cons.1 (hc.starts R hR ht) with h | h
   · rw [← h, grank_start]; exact Nat.le_refl _
   · have := (List.pairwise_cons.1 hc.sorted).1 _ h
     rw [grank_start] at this; omega
 
-theorem Cut.stop_ge {F : List Rng} {t : Nat} {g : GEv} {rest : List GEv} (hc : Cut F t (g :: rest))
+theorem Cut.stop_ge {F : List Rng} {M : List GEv} {t : Nat} {g : GEv} {rest : List GEv}
+    (hc : Cut F M t (g :: rest))
     {R : Rng} (hR : R ∈ F) (hne : R.hi ≠ TOP) (ht : t < erank R) : grank g ≤ erank R := by
   rcases List.mem_cons.1 (hc.stops R hR hne ht) with h | h
   · rw [← h, grank_stop]; exact Nat.le_refl _
@@ -140,11 +144,10 @@ theorem Cut.stop_ge {F : List Rng} {t : Nat} {g : GEv} {rest : List GEv} (hc : C
     rw [grank_stop] at this; omega
 
 /-- a start event pushes its range -/
-theorem Inv.push {F : List Rng} (hF : RngWF F) {t : Nat} {R : Rng} {rest : List GEv} {st : List Rng}
-    (hc : Cut F t (⟨R, .start⟩ :: rest)) (hinv : Inv F t st) : Inv F (srank R) (R :: st) := by
-  have hg := hc.sound _ List.mem_cons_self
-  have hRF : R ∈ F := hg.2.1
-  have ht : t < srank R := hg.1
+theorem Inv.push {F : List Rng} (hF : RngWF F) {M : List GEv} {t : Nat} {R : Rng} {rest : List GEv}
+    {st : List Rng} (hc : Cut F M t (⟨R, .start⟩ :: rest)) (hRF : R ∈ F) (hinv : Inv F t st) :
+    Inv F (srank R) (R :: st) := by
+  have ht : t < srank R := (hc.sound _ List.mem_cons_self).1
   constructor
   · intro X
     constructor
@@ -181,13 +184,11 @@ theorem Inv.push {F : List Rng} (hF : RngWF F) {t : Nat} {R : Rng} {rest : List 
     omega
 
 /-- a stop event finds its own range on top of the stack, with its parent below -/
-theorem Inv.pop {F : List Rng} (hF : RngWF F) {t : Nat} {R : Rng} {rest : List GEv} {st : List Rng}
-    (hc : Cut F t (⟨R, .stop⟩ :: rest)) (hinv : Inv F t st) :
+theorem Inv.pop {F : List Rng} (hF : RngWF F) {M : List GEv} {t : Nat} {R : Rng} {rest : List GEv}
+    {st : List Rng} (hc : Cut F M t (⟨R, .stop⟩ :: rest)) (hRF : R ∈ F) (hRtop : R.hi ≠ TOP)
+    (hinv : Inv F t st) :
     ∃ H below, st = R :: H :: below ∧ Inv F (erank R) (H :: below) := by
-  have hg := hc.sound _ List.mem_cons_self
-  have hRF : R ∈ F := hg.2.1
-  have hRtop : R.hi ≠ TOP := hg.2.2 rfl
-  have ht : t < erank R := hg.1
+  have ht : t < erank R := (hc.sound _ List.mem_cons_self).1
   have hse := srank_lt_erank hF hRF
   -- R has been started
   have hRs : srank R ≤ t := by
@@ -287,12 +288,30 @@ theorem Inv.pop {F : List Rng} (hF : RngWF F) {t : Nat} {R : Rng} {rest : List G
       · have := (List.pairwise_cons.1 hc.sorted).1 _ h
         rw [grank_stop, grank_start] at this; omega
 
+/-- a start point is pushed — unless it is the pseudo start right after the IPv4 range (address
+`afterIPv4`, mask length 0) met with more than the default range on the stack (`resumesIPv6`) -/
 theorem sweep_start (p : Point) (rest : List Point) (stack : List (Nat × Option Bytes))
-    (h : p.kind = .start) :
+    (h : p.kind = .start) (hno : ¬ (p.ip = afterIPv4 ∧ p.maskLen = 0 ∧ stack.length > 1)) :
     sweep (p :: rest) stack = (sweep rest ((p.maskLen, p.loc) :: stack)).map (p :: ·) := by
   obtain ⟨ip, ml, loc, k⟩ := p
   cases h
-  rfl
+  simp only at hno
+  show (if ip = afterIPv4 ∧ ml = 0 ∧ stack.length > 1 then _ else _) = _
+  rw [if_neg hno]
+
+/-- the pseudo start right after the IPv4 range, met inside a declared range: not pushed, it takes
+mask length and location of the range that continues -/
+theorem sweep_resume (p : Point) (rest : List Point) (x : Nat × Option Bytes)
+    (below : List (Nat × Option Bytes)) (h : p.kind = .start)
+    (hyes : p.ip = afterIPv4 ∧ p.maskLen = 0 ∧ (x :: below).length > 1) :
+    sweep (p :: rest) (x :: below) =
+      (sweep rest (x :: below)).map ({ p with maskLen := x.1, loc := x.2 } :: ·) := by
+  obtain ⟨ip, ml, loc, k⟩ := p
+  obtain ⟨m, l⟩ := x
+  cases h
+  simp only at hyes
+  show (if ip = afterIPv4 ∧ ml = 0 ∧ ((m, l) :: below).length > 1 then _ else _) = _
+  rw [if_pos hyes]
 
 theorem sweep_stop (p : Point) (rest : List Point) (x : Nat × Option Bytes) (m : Nat) (l : Option Bytes)
     (below : List (Nat × Option Bytes)) (h : p.kind = .stop) :
@@ -302,51 +321,210 @@ theorem sweep_stop (p : Point) (rest : List Point) (x : Nat × Option Bytes) (m 
   cases h
   rfl
 
+/-- only the default range `[0, …)` of mask length 0 is open across `afterIPv4` when a range of mask
+length 0 starts there — then the `resumesIPv6` rule of the sweep does not fire -/
+def NoResume (F : List Rng) : Prop :=
+  ∀ R ∈ F, R.lo = afterIPv4 → R.len = 0 →
+    ∀ X ∈ F, X.lo < afterIPv4 → afterIPv4 < X.hi → X.lo = 0 ∧ X.len = 0
+
+/-- under `NoResume` the stack holds at most the default range when a range of mask length 0 starts
+at `afterIPv4` -/
+theorem stack_le_one {F : List Rng} (hF : RngWF F) (hN : NoResume F) {M : List GEv} {t : Nat} {R : Rng}
+    {rest : List GEv} {st : List Rng} (hc : Cut F M t (⟨R, .start⟩ :: rest)) (hRF : R ∈ F)
+    (hinv : Inv F t st) (hlo : R.lo = afterIPv4) (hlen : R.len = 0) : st.length ≤ 1 := by
+  have ht : t < srank R := (hc.sound _ List.mem_cons_self).1
+  have key : ∀ X ∈ st, srank X = 512 := by
+    intro X hX
+    obtain ⟨hXF, hXs, hXe⟩ := (hinv.mem X).1 hX
+    obtain ⟨b1, b2, b3⟩ := hF.bounds X hXF
+    have hXlo : X.lo < afterIPv4 := by
+      unfold srank at hXs ht; rw [hlo, hlen] at ht; omega
+    have hXhi : afterIPv4 < X.hi := by
+      by_cases hTop : X.hi = TOP
+      · rw [hTop]; decide
+      · have h' : t < erank X := by rcases hXe with h | h; exact absurd h hTop; exact h
+        have := hc.stop_ge hXF hTop h'
+        rw [grank_start] at this
+        unfold srank erank at this; rw [hlo, hlen] at this; omega
+    obtain ⟨e1, e2⟩ := hN R hRF hlo hlen X hXF hXlo hXhi
+    unfold srank; rw [e1, e2]
+  match st, hinv, key with
+  | [], _, _ => exact Nat.zero_le _
+  | [_], _, _ => exact Nat.le_refl _
+  | X :: Y :: _, hinv, key =>
+    exfalso
+    have := (List.pairwise_cons.1 hinv.order).1 Y List.mem_cons_self
+    rw [key X List.mem_cons_self, key Y (List.mem_cons_of_mem _ List.mem_cons_self)] at this
+    omega
+
+/-- the marker events: pseudo start points of mask length 0 at `afterIPv4` that belong to no range of
+`F`; they occur only when `F` has a range of positive mask length across `afterIPv4` (and then `F` has
+no range of mask length 0 starting there) -/
+structure MarkWF (F : List Rng) (M : List GEv) : Prop where
+  kind : ∀ m ∈ M, m.kind = .start
+  lo : ∀ m ∈ M, m.r.lo = afterIPv4
+  len : ∀ m ∈ M, m.r.len = 0
+  notF : ∀ m ∈ M, m.r ∉ F
+  across : ∀ m ∈ M, ∃ X ∈ F, X.lo < afterIPv4 ∧ afterIPv4 < X.hi ∧ X.len ≠ 0
+  alone : ∀ m ∈ M, ∀ R ∈ F, ¬ (R.lo = afterIPv4 ∧ R.len = 0)
+
+theorem MarkWF.nil (F : List Rng) : MarkWF F [] := by
+  constructor <;> intro m hm <;> cases hm
+
+theorem MarkWF.grank {F : List Rng} {M : List GEv} (hM : MarkWF F M) {m : GEv} (hm : m ∈ M) :
+    grank m = afterIPv4 * 1024 + 512 := by
+  obtain ⟨R, k⟩ := m
+  have h1 := hM.kind _ hm
+  have h2 := hM.lo _ hm
+  have h3 := hM.len _ hm
+  simp only at h1 h2 h3
+  subst h1
+  rw [grank_start]; unfold srank; rw [h2, h3]
+
+/-- a marker event changes nothing: the same ranges are open before and after it -/
+theorem Inv.skip {F : List Rng} {M : List GEv} {t : Nat} {m : GEv} {rest : List GEv} {st : List Rng}
+    (hc : Cut F M t (m :: rest)) (hm : m.r ∉ F) (hinv : Inv F t st) : Inv F (grank m) st := by
+  have ht : t < grank m := (hc.sound _ List.mem_cons_self).1
+  have hlt : ∀ g' ∈ rest, grank m < grank g' := (List.pairwise_cons.1 hc.sorted).1
+  refine ⟨fun X => ?_, hinv.order⟩
+  rw [hinv.mem X]
+  constructor
+  · rintro ⟨hXF, hXs, hXe⟩
+    refine ⟨hXF, by omega, ?_⟩
+    by_cases hTop : X.hi = TOP
+    · exact Or.inl hTop
+    · right
+      have h' : t < erank X := by rcases hXe with h | h; exact absurd h hTop; exact h
+      rcases List.mem_cons.1 (hc.stops X hXF hTop h') with h | h
+      · exact absurd (h ▸ hXF : m.r ∈ F) hm
+      · have := hlt _ h; rwa [grank_stop] at this
+  · rintro ⟨hXF, hXs, hXe⟩
+    have hs : srank X ≤ t := by
+      refine Nat.le_of_not_lt fun h => ?_
+      rcases List.mem_cons.1 (hc.starts X hXF h) with h' | h'
+      · exact absurd (h' ▸ hXF : m.r ∈ F) hm
+      · have := hlt _ h'; rw [grank_start] at this; omega
+    refine ⟨hXF, hs, ?_⟩
+    rcases hXe with h | h
+    · exact Or.inl h
+    · exact Or.inr (by omega)
+
+/-- at a marker event the stack holds at least two ranges: the default range and the range across
+`afterIPv4` -/
+theorem stack_two {F : List Rng} (hF : RngWF F) {M : List GEv} (hM : MarkWF F M) {t : Nat} {m : GEv}
+    {rest : List GEv} {st : List Rng} (hc : Cut F M t (m :: rest)) (hm : m ∈ M) (hinv : Inv F t st) :
+    ∃ H H' below, st = H :: H' :: below := by
+  have hmr : m.r ∉ F := hM.notF m hm
+  have hlt : ∀ g' ∈ rest, grank m < grank g' := (List.pairwise_cons.1 hc.sorted).1
+  have hgm := hM.grank hm
+  -- every range of `F` that starts below `afterIPv4` and ends above it is open
+  have hopen : ∀ X ∈ F, X.lo < afterIPv4 → afterIPv4 < X.hi → X ∈ st := by
+    intro X hXF h1 h2
+    obtain ⟨b1, b2, b3⟩ := hF.bounds X hXF
+    refine (hinv.mem X).2 ⟨hXF, ?_, ?_⟩
+    · refine Nat.le_of_not_lt fun h => ?_
+      rcases List.mem_cons.1 (hc.starts X hXF h) with h' | h'
+      · exact absurd (h' ▸ hXF : m.r ∈ F) hmr
+      · have := hlt _ h'; rw [grank_start, hgm] at this; unfold srank at this; omega
+    · by_cases hTop : X.hi = TOP
+      · exact Or.inl hTop
+      · right
+        have := (hc.sound _ List.mem_cons_self).1
+        rw [hgm] at this; unfold erank
+        have h3 : (afterIPv4 + 1) * 1024 ≤ X.hi * 1024 := Nat.mul_le_mul_right 1024 h2
+        have h4 : t < (afterIPv4 + 1) * 1024 := by
+          generalize afterIPv4 = A at this ⊢
+          omega
+        exact Nat.lt_of_lt_of_le h4 (Nat.le_trans h3 (Nat.le_add_right _ _))
+  obtain ⟨X, hXF, hX1, hX2, hX3⟩ := hM.across m hm
+  obtain ⟨R0, hR0F, hR0lo, hR0hi, hR0len⟩ := hF.base
+  have hX := hopen X hXF hX1 hX2
+  have hR0 := hopen R0 hR0F (by rw [hR0lo]; exact Nat.two_pow_pos 48) (by rw [hR0hi]; exact Nat.pow_lt_pow_right (by decide) (by decide))
+  have hne : X ≠ R0 := fun h => hX3 (h ▸ hR0len)
+  match st, hX, hR0 with
+  | [], hX, _ => cases hX
+  | [Y], hX, hR0 =>
+    exact absurd ((List.mem_singleton.1 hX).trans (List.mem_singleton.1 hR0).symm) hne
+  | H :: H' :: below, _, _ => exact ⟨H, H', below, rfl⟩
+
 /-- **sweep_invariant**: on the sorted events of a well-formed family the sweep never runs out of
 stack, and the point it emits for each event carries mask length and location of the innermost
-range open just after that event (which for a start event is the event's own range) -/
-theorem sweep_ghost {F : List Rng} (hF : RngWF F) :
-    ∀ (rest : List GEv) (t : Nat) (st : List Rng), Cut F t rest → Inv F t st →
+range open just after that event (which for a start event of a range of `F` is that range; a marker
+event is not pushed and emits the innermost range that continues) -/
+theorem sweep_ghost {F : List Rng} (hF : RngWF F) (hN : NoResume F) {M : List GEv} (hM : MarkWF F M) :
+    ∀ (rest : List GEv) (t : Nat) (st : List Rng), Cut F M t rest → Inv F t st →
       ∃ hs : List Rng, hs.length = rest.length ∧
         sweep (rest.map GEv.pt) (st.map tag) = some ((rest.zip hs).map outPt) ∧
-        ∀ gh ∈ rest.zip hs, IsHead F (grank gh.1) gh.2 ∧ (gh.1.kind = .start → gh.2 = gh.1.r) := by
+        ∀ gh ∈ rest.zip hs, IsHead F (grank gh.1) gh.2 ∧
+          (gh.1.r ∈ F → gh.1.kind = .start → gh.2 = gh.1.r) := by
   intro rest
   induction rest with
   | nil => intro t st _ _; exact ⟨[], rfl, rfl, fun _ h => by simp at h⟩
   | cons g rest ih =>
     intro t st hc hinv
-    obtain ⟨R, k⟩ := g
-    cases k with
-    | start =>
-      have hinv' := hinv.push hF hc
-      obtain ⟨hs, hlen, hsw, hall⟩ := ih (srank R) (R :: st) hc.tail hinv'
-      refine ⟨R :: hs, by simp [hlen], ?_, ?_⟩
-      · rw [List.map_cons, sweep_start _ _ _ rfl]
-        have : (((GEv.mk R .start).pt.maskLen, (GEv.mk R .start).pt.loc) :: st.map tag) =
-            (R :: st).map tag := rfl
-        rw [this, hsw]
-        rfl
-      · intro gh hgh
-        rw [List.zip_cons_cons] at hgh
-        rcases List.mem_cons.1 hgh with h | h
-        · rw [h]
-          exact ⟨head_inner hF hinv', fun _ => rfl⟩
-        · exact hall gh h
-    | stop =>
-      obtain ⟨H, below, hst, hinv'⟩ := hinv.pop hF hc
-      obtain ⟨hs, hlen, hsw, hall⟩ := ih (erank R) (H :: below) hc.tail hinv'
+    rcases (hc.sound g List.mem_cons_self).2 with ⟨hRF, hstop⟩ | hgM
+    · obtain ⟨R, k⟩ := g
+      simp only at hRF hstop
+      cases k with
+      | start =>
+        have hinv' := hinv.push hF hc hRF
+        obtain ⟨hs, hlen, hsw, hall⟩ := ih (srank R) (R :: st) hc.tail hinv'
+        refine ⟨R :: hs, by simp [hlen], ?_, ?_⟩
+        · have hno : ¬ ((GEv.mk R .start).pt.ip = afterIPv4 ∧ (GEv.mk R .start).pt.maskLen = 0 ∧
+              (st.map tag).length > 1) := by
+            rintro ⟨h1, h2, h3⟩
+            have := stack_le_one hF hN hc hRF hinv h1 h2
+            rw [List.length_map] at h3; omega
+          rw [List.map_cons, sweep_start _ _ _ rfl hno]
+          have : (((GEv.mk R .start).pt.maskLen, (GEv.mk R .start).pt.loc) :: st.map tag) =
+              (R :: st).map tag := rfl
+          rw [this, hsw]
+          rfl
+        · intro gh hgh
+          rw [List.zip_cons_cons] at hgh
+          rcases List.mem_cons.1 hgh with h | h
+          · rw [h]
+            exact ⟨head_inner hF hinv', fun _ _ => rfl⟩
+          · exact hall gh h
+      | stop =>
+        obtain ⟨H, below, hst, hinv'⟩ := hinv.pop hF hc hRF (hstop rfl)
+        obtain ⟨hs, hlen, hsw, hall⟩ := ih (erank R) (H :: below) hc.tail hinv'
+        refine ⟨H :: hs, by simp [hlen], ?_, ?_⟩
+        · rw [hst, List.map_cons]
+          show sweep _ (tag R :: (H.len, H.loc) :: below.map tag) = _
+          rw [sweep_stop _ _ _ _ _ _ rfl]
+          have : ((H.len, H.loc) :: below.map tag) = (H :: below).map tag := rfl
+          rw [this, hsw]
+          rfl
+        · intro gh hgh
+          rw [List.zip_cons_cons] at hgh
+          rcases List.mem_cons.1 hgh with h | h
+          · rw [h]
+            exact ⟨head_inner hF hinv', fun _ hk => by cases hk⟩
+          · exact hall gh h
+    · -- a marker: not pushed
+      have hmr : g.r ∉ F := hM.notF g hgM
+      obtain ⟨H, H', below, hst⟩ := stack_two hF hM hc hgM hinv
+      have hinv' : Inv F (grank g) (H :: H' :: below) := hst ▸ hinv.skip hc hmr
+      obtain ⟨hs, hlen, hsw, hall⟩ := ih (grank g) (H :: H' :: below) hc.tail hinv'
+      have hk := hM.kind g hgM
+      have hlo := hM.lo g hgM
+      have hln := hM.len g hgM
+      obtain ⟨R, k⟩ := g
+      simp only at hk hlo hln hmr
+      subst hk
       refine ⟨H :: hs, by simp [hlen], ?_, ?_⟩
       · rw [hst, List.map_cons]
-        show sweep _ (tag R :: (H.len, H.loc) :: below.map tag) = _
-        rw [sweep_stop _ _ _ _ _ _ rfl]
-        have : ((H.len, H.loc) :: below.map tag) = (H :: below).map tag := rfl
+        show sweep _ (tag H :: (H' :: below).map tag) = _
+        rw [sweep_resume _ _ _ _ rfl ⟨hlo, hln, by simp⟩]
+        have : (tag H :: (H' :: below).map tag) = (H :: H' :: below).map tag := rfl
         rw [this, hsw]
         rfl
       · intro gh hgh
         rw [List.zip_cons_cons] at hgh
         rcases List.mem_cons.1 hgh with h | h
         · rw [h]
-          exact ⟨head_inner hF hinv', fun hk => by cases hk⟩
+          exact ⟨head_inner hF hinv', fun hin => absurd hin hmr⟩
         · exact hall gh h
 
 end DnsVerif.Lpm
